@@ -4,7 +4,7 @@
 
   Model: `ASV.Lookup` (Model/Lookup.lean) — the repaired `get_cds_features_within_location`
   (fixes/D4_D5_D6_cds_lookup_exact.patch), `add_cds_feature`, the repaired `_link_cds_to_parent`
-  (fixes/D25_link_cds_to_every_region.patch), the `add_<area>` methods, `CDSCollection/Protocluster/Region.add_cds`.
+  (fixes/D41_link_cds_to_every_region.patch), the `add_<area>` methods, `CDSCollection/Protocluster/Region.add_cds`.
   Spec: `ASV.Lookup.spec*` (Spec/Lookup.lean).
 
   Guards (all decidable, evaluated per case by the driver as the scope flag):
